@@ -36,7 +36,7 @@ CHECKS = {
                 "from each blocked pre-state (no port / symbolic error message recorded) with symbolic arguments against a recording "
                 "fake port: it must write nothing, leave the same error object, return a failure value and stay blocked; connect and "
                 "disconnect are executed from every pre-state with a solver-chosen handshake (open failure, empty, non-EBB, old/new "
-                "banner, SerialException) and must never replace a recorded error. Histories of any length follow by induction.",
+                "banner, SerialException) and must never replace a recorded error. Histories of any length follow by induction. The latch is also checked inside methods that issue several requests: after a solver-placed fault nothing more may be transmitted by the same call.",
         "note": "serial.Serial/comports stubbed; failure values = False/None/tuple of Nones; induction over histories is the standard "
                 "paper argument; private (_) methods and external attribute mutation outside the claim",
         "technique": "symbolic execution of the Python source (symbolic strings/ints, solver-chosen fault schedule) + per-path obligations, counterexample replay",
@@ -47,7 +47,7 @@ CHECKS = {
                 "SerialException or OSError / nothing; or a failing write): written bytes, number of reads consumed (alignment), return "
                 "value and error latch are proved equal to the restated framing rule. Part B: every public request method is executed "
                 "against a conforming board with each fault kind injected at a solver-chosen request: nothing may escape, the failure "
-                "must be latched and a failure value returned.",
+                "must be latched and a failure value returned. The same requests are also run after earlier successful requests on the same object (no state may carry over), and after a fault no further bytes may be sent by the same call.",
         "note": "ASCII universe; reply length and E bounded (quick: E in [0,2]u[24,27], reply 1/4/6 chars; thorough: E in [0,27], reply 1..8); "
                 "RB/R/BL exempt from exception latching (deliberate in the code); malformed data after a correct name outside the claim",
         "technique": "symbolic execution of the Python source on symbolic strings with a solver-scripted fake port + SMT obligations per path, counterexample replay",
@@ -57,7 +57,7 @@ CHECKS = {
                 "integer arguments and each optional argument absent/present against a conforming fake port; formatting yields "
                 "tokens, so the written text decodes to literal fields and terms that z3 proves equal to the documented command "
                 "(argument order, clamping 0..5, zero values present, pause chunks in 1..750 summing to n, LM suppression rule, "
-                "nothing without a port). A dropped zero shows up as a satisfiable obligation with the zero as witness.",
+                "nothing without a port). A dropped zero shows up as a satisfiable obligation with the zero as witness. EBBMotionWrap.motors_enable is checked through C16's symbolic board (including an earlier request and a power cycle).",
         "note": "decimal rendering of integers by str.format/f-strings is a stub (token); expected texts transcribed from the "
                 "docstrings/EBB reference; pause bound n<=6000 (quick) / 48000 (thorough); integer arguments only",
         "technique": "symbolic execution of the Python source with token strings + SMT (linear integer arithmetic) obligations per path, counterexample replay",
@@ -76,7 +76,7 @@ CHECKS = {
         "text": "Symbolic execution of clip_segment/clip_code over eight unbounded reals: all feasible loop unrollings "
                 "(0-4 clips) are explored; on every path accept/reject, on-segment, orientation, inside and coverage are "
                 "proved by z3 nlsat (QF_NRA, fresh solver per query); a reachable division by zero or fail-safe exit "
-                "would surface as a satisfiable obligation. Counterexamples are replayed with exact Fractions.",
+                "would surface as a satisfiable obligation. Counterexamples are replayed with exact Fractions. A second case runs the call after earlier calls that used the same argument objects, edited in place (no state may survive between calls).",
         "note": "exact-real model of binary64 (tolerance of the statement is 0 here; rounding not analysed); xmin<=xmax, "
                 "ymin<=ymax assumed; at most 400 decisions per path (never hit)",
         "technique": "symbolic execution of the Python source on z3 real terms + SMT (QF_NRA) obligations per path, counterexample replay",
@@ -87,7 +87,7 @@ CHECKS = {
                 "result equals max_dist_from_n_points(pts) < tol with ffgeom executed symbolically (sqrt as a fresh root). L2: supersample "
                 "is executed with the predicate replaced by a memoised nondeterministic stub on lists up to the bound, exploring every "
                 "answer sequence: in-order subsequence of the same objects, first/last kept, every deleted run is the interior of a slice "
-                "judged in tolerance, short lists / non-positive tolerances untouched. L1+L2 give the property.",
+                "judged in tolerance, short lists / non-positive tolerances untouched. L1+L2 give the property. An end-to-end case runs supersample with the real predicate on 3 (thorough 4) symbolic vertices and proves every deleted vertex within tolerance of the segment between its surviving neighbours, independently of how the function is organised.",
         "note": "exact-real model of binary64; n <= 4 (quick) / 5 (thorough) points for L1, lists <= 6 / 9 for L2; the composition of L1 and "
                 "L2 is a paper argument (the stub's contract is L1)",
         "technique": "symbolic execution of the Python source on z3 real terms + SMT (QF_NRA) obligations per path; nondeterministic stub for the structural lemma; counterexample replay",
@@ -98,7 +98,7 @@ CHECKS = {
                 "identities) equal to the blossom restriction of the original pieces to the dyadic intervals of an independently "
                 "maintained model, outer handles untouched, every final piece judged flat. F: the real predicate on 4 symbolic points "
                 "returns True exactly when both inner control points are within the flatness of the chord (QF_NRA). T(i): second "
-                "differences of the halves are D1/4, (D1+D2)/8, D2/4 (so they shrink by 4 per level).",
+                "differences of the halves are D1/4, (D1+D2)/8, D2/4 (so they shrink by 4 per level). A second-call case subdivides the same geometry again with another flatness (nothing may be remembered between calls).",
         "note": "exact-real model; <= 3 nodes, K = 4 (quick) / 7 (thorough); pieces are processed independently and the depth bound "
                 "log4(max|D|/(flat/2))+1 needs T(ii) (small second differences imply flat), left as a paper argument because z3 answered unknown",
         "technique": "symbolic execution of the Python source on z3 real terms + SMT (QF_LRA/QF_NRA) obligations per path; nondeterministic stub for the structural lemma; counterexample replay",
@@ -108,7 +108,7 @@ CHECKS = {
                 "characters, a preserveAspectRatio text generated from the SVG grammar (none + 9 alignments x absent/meet/slice x defer, case of "
                 "every letter and every separator symbolic) and symbolic document sizes; scale and offsets are proved (QF_NRA, "
                 "cross-multiplied) to satisfy SVG 1.1 7.8 restated in the harness; None, 0-3 tokens, a non-numeric token and non-positive "
-                "sizes must give the identity.",
+                "sizes must give the identity. Every case is run both in a fresh interpreter and after two earlier calls with other arguments.",
         "note": "numerals are atoms (float(atom) = its symbolic value, or ValueError when flagged non-numeric); exact-real model; grammar "
                 "values only",
         "technique": "symbolic execution of the Python source on symbolic strings and z3 real terms + SMT (QF_NRA) obligations per path, counterexample replay",
@@ -118,7 +118,7 @@ CHECKS = {
                 "real; or flagged non-numeric; or absent), 0-2 symbolic suffix characters over the unit letters of both cases plus e x %, "
                 "optional blank. Per path z3 proves: a value is returned exactly for the ten supported suffixes with the right unit, "
                 "conversion uses the SVG factor at 96 px/in (to relative 1e-9), converting back returns the value, getLength = 96 x "
-                "getLengthInches, percentages are taken of the reference, everything else yields None with no exception.",
+                "getLengthInches, percentages are taken of the reference, everything else yields None with no exception. Numerals are also spelled out character by character (symbolic digits, signs, exponent marks) using a float(str) model that is validated against CPython each run.",
         "note": "numerals are atoms (float(atom) = its symbolic value / ValueError); exact-real model with relative tolerance 1e-9 for "
                 "constants pre-evaluated in binary64; percent reference != 0; inf/nan/underscores outside the alphabet",
         "technique": "symbolic execution of the Python source on symbolic strings and z3 real terms + SMT (QF_LRA/NRA) obligations per path, counterexample replay",
@@ -128,7 +128,7 @@ CHECKS = {
                 "symbolic reals, for concrete grid sizes, both reversal settings and every removal subset; per path z3 (QF_NRA) proves "
                 "the construction invariant (each live end in exactly one cell, the cell given by the independently restated half-open "
                 "rule, lookup agrees, adjacency = 3x3 neighbourhood) and the nearest() contract (live id, start unless reversal, no live end "
-                "of the query's neighbourhood - or anywhere when it is empty - strictly closer; true nearest within one cell width).",
+                "of the query's neighbourhood - or anywhere when it is empty - strictly closer; true nearest within one cell width). Cases with two ends are also run after another index was built and queried in the same interpreter.",
         "note": "path ends <= 2 (quick) / <= 3 (thorough) and bins <= 3/4; exact-real model of the bin arithmetic; non-zero extent assumed; "
                 "sequences of removals covered by running nearest() after every removal subset",
         "technique": "symbolic execution of the Python source on z3 real terms (solver-guided concretisation of bin indices) + SMT (QF_NRA) obligations per path, counterexample replay",
@@ -141,7 +141,7 @@ CHECKS = {
                 "(termination); (B) a query visits exactly the children whose arbitrary symbolic extent overlaps the query and reports "
                 "exactly the overlapping leaf boxes. A+B give trees of any size by induction on the height. A failed lemma is never "
                 "reported as such: its model is lifted (far-away boxes, all list orders, probing queries) to an end-to-end brute-force "
-                "mismatch on the real code first.",
+                "mismatch on the real code first. End-to-end cases are also run after other indexes were built and queried in the same interpreter.",
         "note": "exact-real model of the mean-centre arithmetic; min/max as If-terms; the induction composing lemmas A and B is a paper "
                 "argument; node fan-in of the step lemmas bounded by 3/4 boxes",
         "technique": "symbolic execution of the Python source on z3 real terms + SMT (QF_LRA) obligations per path; inductive-step lemmas with counterexample lifting and replay",
@@ -151,7 +151,7 @@ CHECKS = {
                 "handshake: empty / non-EBB / banner / SerialException per probe, open failure, no board; fresh and re-used object) and "
                 "the five legacy gated helpers (V answered by a version, OK, Err, nothing, or a banner without version) are executed "
                 "symbolically; results, transmitted commands and error state are proved equivalent to numeric component-wise order "
-                "against each threshold, so a lexicographic comparison or a gate that lets an unknown version through is a counterexample.",
+                "against each threshold, so a lexicographic comparison or a gate that lets an unknown version through is a counterexample. Gated helpers are also run after an up-to-date board was used on the same device path; version components have up to 3 digits.",
         "note": "packaging.version.parse replaced by a reference parser yielding integer terms (validated against packaging on ~1400 pairs "
                 "each run); three components of 1-2 symbolic digits; serial.Serial/comports stubbed",
         "technique": "symbolic execution of the Python source on symbolic strings + SMT (linear integer arithmetic) obligations per path, counterexample replay",
@@ -161,7 +161,7 @@ CHECKS = {
                 "state is symbolic (RAM = z3 array with arbitrary contents; mode, motor flags, single-motor option arbitrary; nickname "
                 "symbolic string). Replies carry numbers as tokens, so what the library parses back is a term: the int32 round trip, "
                 "big-endian byte layout, untouched other slots, trimmed nickname and the motor-state/mode clauses are proved for all "
-                "values and all prior board states at once (one inductive step per operation).",
+                "values and all prior board states at once (one inductive step per operation). motors_enable is also run after an earlier request on the same object followed by an arbitrary change of the board state (power cycle), and (thorough) after two earlier requests.",
         "note": "the board model (class Board in checks/c16.py, transcribed from the docstrings/EBB reference) is the trusted base; "
                 "int.to_bytes/from_bytes stubbed as div/mod terms and differentially tested against CPython each run; ASCII nicknames <= 4 chars",
         "technique": "symbolic execution of the Python source against a symbolic-state device model (z3 arrays, integer terms, token strings) + SMT obligations per path, counterexample replay",
@@ -170,7 +170,7 @@ CHECKS = {
         "text": "max_rate_t3 (with the rate_t3 calls it makes) is executed on symbolic rate/accel/jerk for each T of a list up to 64 (quick) / "
                 "256 (thorough); the vertex time is an exact rational with symbolic denominator, ceil() a fresh integer concretised by "
                 "forking. Every evaluated tick is proved to lie in 1..T (so reported <= true peak), reported >= |R(1)|,|R(T)|, and no tick "
-                "k in 1..T has |R(k)| > reported + |jerk| (quantifier over k unrolled; R = closed form proved in C02).",
+                "k in 1..T has |R(k)| > reported + |jerk| (quantifier over k unrolled; R = closed form proved in C02). Selected durations are also run after an earlier call with the same rate/accel/jerk and another duration.",
         "note": "T enumerated (not symbolic); binary64 operations of rate_t3 exact under |jerk|T^2,|accel|T < 2^40 (proved per operation); "
                 "rounding of t_mid itself is a paper argument",
         "technique": "symbolic execution of the Python source on z3 integer terms (rationals with symbolic denominator) + SMT (linear integer arithmetic after concretising the tick) obligations per path, counterexample replay",
@@ -178,7 +178,7 @@ CHECKS = {
     "C18": {
         "text": "Bounded-free symbolic execution of the four limit helpers over unbounded reals; every path's result, range "
                 "membership and flag are proved equal to the clamp/outlier specification by z3 (QF_LRA, unsat = holds for "
-                "all reals); counterexamples are replayed on the unmodified module with exact Fractions.",
+                "all reals); counterexamples are replayed on the unmodified module with exact Fractions. point_in_bounds is also run after earlier calls on the same list objects edited in place.",
         "note": "floats modelled as exact reals (no NaN/inf, no binary64 rounding of bound+-tolerance); min/max modelled as "
                 "If-terms; preconditions lower<=upper, tol>=0",
         "technique": "symbolic execution of the Python source on z3 terms + SMT (QF_LRA) obligations per path, counterexample replay",
@@ -188,7 +188,7 @@ CHECKS = {
                 "names/tags/port digits); the eight discovery functions of both layers are executed on 0..2 (thorough: 3) ports; first-match, "
                 "listing and reported names are proved equal to the restated rules, and lookups by reported name / serial tag / port name "
                 "with a symbolic case flip per character are proved to return the chosen board unless an earlier port matches, to return "
-                "only listed ports, and to agree between layers (SNR= apart).",
+                "only listed ports, and to agree between layers (SNR= apart). First-board discovery on an EBB3 object is also run after an earlier discovery with a shorter port list.",
         "note": "descriptor templates and the restated match predicate are the trusted base; names 3 (thorough: 3-4) chars over letters, "
                 "digits, space, underscore; ASCII",
         "technique": "symbolic execution of the Python source on symbolic strings + SMT obligations per path, counterexample replay",
@@ -199,7 +199,7 @@ CHECKS = {
                 "reference entity decoder (validated against lxml in element content and both attribute quotings each run) proved to "
                 "read back the input. format_hms is executed on a symbolic duration (ms integer / k/1000 s / integer s up to 10^7 s); "
                 "the text decodes to literals and (term, spec) tokens which are proved to encode the duration rounded to the nearest "
-                "second with fields in 00..59 and the form chosen by the rounded value; ms and s inputs give the same text.",
+                "second with fields in 00..59 and the form chosen by the rounded value; ms and s inputs give the same text. Milliseconds are also given with two decimals; rendered numbers are compared through a canonical digit-group model, so different format specs that print the same digits are recognised as equal.",
         "note": "ASCII alphabet with one generic 'other' character; string length <= 4 (quick) / 6 (thorough); C-level number rendering "
                 "is a token (term+spec); exact-real model of duration/1000.0; code that hands the symbolic string to a C-level matcher "
                 "(e.g. re) is reported INCONCLUSIVE, not decided",
